@@ -12,6 +12,11 @@ CHECKS = {
   text="Proof: quote/unquote/sanitize_path/make_href and the three URL decoders are modelled as total Lean functions; the round-trip and decoder-agreement theorems hold for all strings. The model is tied to the code on every run by running the same generated strings through Python and the compiled model driver, and by sending every emitted href back through GET / multiget / MOVE on the real application under generated base prefixes.",
   note="Trusted: Lean kernel; standard axioms only; the hand-written model agrees with CPython's urllib.parse/posixpath and Radicale's pathutils only as far as the correspondence run shows; strings without lone surrogates; front end strips the script name on the decoded path.",
   ref="5/C18"),
+ "C17": dict(
+  technique="Lean 4 inductive invariant over login histories (every cache entry is backed by a recorded back-end answer), lifted to all histories; independence of logins by a simulation argument; differential correspondence of BaseAuth.login with a scripted back-end and clock",
+  text="Proof: BaseAuth.login with the cache enabled is modelled as a total function on two finite maps with a symbolic perfect hash; for every history of attempts, clock advances and credential changes each answer is justified by a back-end answer for the same credentials within the success/failure lifetime, equals the back-end when credentials never change, and is independent of attempts under other logins. Tie: generated histories run through the real login() (scripted _login, clock shim) and the model driver; answers, cached/consulted flags must agree; a model-independent oracle re-checks justification and independence on the implementation.",
+  note="Trusted: Lean kernel, standard axioms; SHA3-512 as an injective function of (salt, login, password); clock constant during one call and monotone; ASCII logins for lc/uc; the hand-written model agrees with the code as far as the correspondence run shows.",
+  ref="5/C17"),
 }
 
 NA_REASON = "check not built yet (work in progress; see DESIGN.md section 5 for the plan)"
